@@ -118,6 +118,37 @@ CHECKS = {
         "block-graph invariants stated by the property.",
         "Trusted: pytype's pyc.compile_src as the producer of opcodes; the "
         "invariant checker in props/c16_blocks.py."),
+    "C10": (
+        "bounded-exhaustive + Hypothesis hierarchy generation, differential "
+        "against CPython's type() (class creation and attribute lookup)",
+        "Every hierarchy of <=3 classes with <=2-3 ordered bases (incl. object, "
+        "repeats, inconsistent orders) through stub classes, <=2 classes "
+        "through source programs, random hierarchies to 8 classes through both "
+        "routes; mro-error <=> TypeError, attribute reads name the defining "
+        "class CPython finds, GetBasesInMRO == __mro__.",
+        "Trusted: CPython 3.12 type(); marker-class encoding of 'which "
+        "definition was found'."),
+    "C13": (
+        "exhaustive signature x call-shape enumeration (sharded, stratified in "
+        "the quick tier) + Hypothesis for larger signatures, differential "
+        "against CPython evaluating each call",
+        "All 756 signatures with <=2 parameters of each kind x call shapes (0-5 "
+        "positional, <=3 keyword names incl. an unknown one, plus every "
+        "constructed-valid shape) x 5 callee kinds; a TypeError under CPython "
+        "<=> an arity/keyword error on the line, and the result type names "
+        "the argument class bound to every parameter.",
+        "Trusted: CPython 3.12 evaluating the call; distinct-class-per-argument "
+        "encoding; positions typed Any are counted as unverifiable."),
+    "C14": (
+        "exhaustive statement grid over a value grammar (28k statements; "
+        "advertised core always complete), each statement executed alone under "
+        "CPython as differential oracle; Hypothesis two-step statements",
+        "Soundness: an error on a line implies CPython raised "
+        "TypeError/AttributeError; completeness for the advertised mistakes "
+        "only (missing attribute/method, non-callable, + - * / unary minus and "
+        "subscripts between builtin types).",
+        "Trusted: CPython 3.12; statements raising other exceptions (KeyError, "
+        "IndexError, unhashable key, ...) are outside the domain and counted."),
 }
 
 PENDING_REASON = ("check not built yet in this round; planned per DESIGN.md "
